@@ -91,6 +91,73 @@ vp_write_all(writer, vp_as_ref_slice(&self.0))
 //@@ end
 }
 
+impl<B: AsRef<[u8]>> Bytes<B> {
+//@@ fn src/request/body.rs impl<B:~AsRef<[u8]>>~Body~for~Bytes kind rename=kind_impl props=C07,C05
+//@@ rw R1
+self.0.as_ref().len().try_into().unwrap()
+//@@ =>
+vp_usize_to_u64(vp_as_ref_slice(&self.0).len())
+//@@ contract
+        ensures res matches Ok(BodyKind::KnownLength(n)) && n == as_ref_bytes(old(self).0).len(), final(self).0 == old(self).0, // id: known_length_is_byte_count [C07]
+//@@ end
+}
+// ---- a body backed by a local file: the file system is outside the verifier, std::fs::File is modelled by its contents and cursor
+#[verifier::external_type_specification] #[verifier::external_body] pub struct ExFsFile(std::fs::File);
+pub uninterp spec fn file_bytes(f: &std::fs::File) -> Seq<u8>;
+pub uninterp spec fn file_pos(f: &std::fs::File) -> int;
+/// `file.seek(SeekFrom::End(0))` (assumed; std): the length, cursor at the end
+#[verifier::external_body] pub fn vp_file_seek_end(f: &mut std::fs::File) -> (r: IoResult<u64>)
+    ensures file_bytes(final(f)) == file_bytes(old(f)), r matches Ok(n) ==> n == file_bytes(old(f)).len() && file_pos(final(f)) == n
+{ use std::io::{Seek, SeekFrom}; f.seek(SeekFrom::End(0)) }
+/// `file.rewind()` (assumed; std): cursor at 0
+#[verifier::external_body] pub fn vp_file_rewind(f: &mut std::fs::File) -> (r: IoResult<()>)
+    ensures file_bytes(final(f)) == file_bytes(old(f)), r is Ok ==> file_pos(final(f)) == 0
+{ use std::io::Seek; f.rewind() }
+/// `io::copy(&mut file, &mut writer)` (assumed; std): everything from the cursor to the end is written
+#[verifier::external_body] pub fn vp_io_copy_file<W: Write>(f: &mut std::fs::File, w: &mut W) -> (r: IoResult<u64>)
+    ensures file_bytes(final(f)) == file_bytes(old(f)), (*final(w)).ident() == (*old(w)).ident(),
+        r is Ok ==> 0 <= file_pos(old(f)) <= file_bytes(old(f)).len() ==> (*final(w)).sent() == (*old(w)).sent() + file_bytes(old(f)).skip(file_pos(old(f))),
+{ std::io::copy(f, w) }
+//@@ item src/request/body.rs struct File vis=pub
+//@@ rw R11
+fs::File
+//@@ =>
+std::fs::File
+//@@ end
+impl File {
+//@@ fn src/request/body.rs impl~Body~for~File kind rename=kind_impl props=C07
+//@@ rw R1
+self.0.seek(SeekFrom::End(0))
+//@@ =>
+vp_file_seek_end(&mut self.0)
+//@@ contract
+        ensures file_bytes(&final(self).0) == file_bytes(&old(self).0),
+            res matches Ok(k) ==> k == BodyKind::KnownLength(file_bytes(&old(self).0).len() as u64), // id: file_length_is_announced [C07]
+//@@ end
+//@@ fn src/request/body.rs impl~Body~for~File write rename=write_impl props=C07,C10
+//@@ sigrw R10
+mut writer: W
+//@@ =>
+writer: &mut W
+//@@ rw R1
+self.0.rewind()
+//@@ =>
+vp_file_rewind(&mut self.0)
+//@@ rw R1
+copy(&mut self.0, &mut writer)
+//@@ =>
+vp_io_copy_file(&mut self.0, writer)
+//@@ splice before
+Ok(())
+//@@ with
+        proof { assert(file_bytes(&old(self).0).skip(0) =~= file_bytes(&old(self).0)); }
+//@@ contract
+        ensures
+            file_bytes(&final(self).0) == file_bytes(&old(self).0), // id: body_unchanged_so_it_can_be_replayed [C10]
+            res is Ok ==> (*final(writer)).sent() == (*old(writer)).sent() + file_bytes(&old(self).0), // id: file_body_is_sent_from_its_start_every_time [C07,C10]
+//@@ end
+}
+
 // The repo's `impl Body for ..` blocks, restated over the verified inherent methods (R3): Verus checks them against the Body
 // contract above, i.e. "Empty / Text / Bytes obey the Body contract" is a discharged obligation, not an assumption.
 impl Body for Empty {
